@@ -227,6 +227,15 @@ def gen_case(rng, prof):
         d['T'] = ('p', base + 1)
     if gk == 'free' and d['T'][0] == 'num' and rng.random() < 0.5:
         pass
+    if rng.random() < prof.get('scale_vars', 0.0):
+        sc = lambda n: [rng.choice([0.5, 2, 4, 10, 0.25, 1]) for _ in range(n)]
+        d['scale_x'] = sc(nx)
+        d['scale_u'] = sc(nu) if nu else None
+        if not next_:
+            d['scale_der'] = sc(nx)
+        if d['algs']:
+            d['scale_z'] = sc(sum(d['algs']))
+        d['scale_v'] = {gk: sc(sum(d['vars'][gk])) for gk in ('', 'control', 'control+') if d['vars'][gk]}
     gen_objective(rng, d, prof)
     gen_constraints(rng, d, prof)
     return d
@@ -304,7 +313,7 @@ def gen_constraints(rng, d, prof):
             rel = rng.choice(['le', 'eq', 'ge'])
             cons.append({'rel': rel, 'a': [lhs], 'b': [rhs], 'grid': 'point'})
             continue
-        nrows = rng.choice([1, 1, 1, 2])
+        nrows = rng.choice(prof.get('nrows', [1, 1, 1, 2]))
         rel = rng.choice(['le', 'le', 'ge', 'eq', 'two'])
         offs = []
         use_off = (g == 'control') and rng.random() < prof.get('offset_prob', 0.0)
@@ -325,9 +334,15 @@ def gen_constraints(rng, d, prof):
             if s['p'] and rng.random() < 0.3:
                 bound = ('*', bound, rng.choice(s['p']))
             if rel == 'two':
-                A.append(E.C(-abs(coef(rng)) - 1))
+                lo, hi = E.C(-abs(coef(rng)) - 1), E.C(abs(coef(rng)) + 1)
+                if nrows > 1 and rng.random() < prof.get('inf_bounds_prob', 0.0):
+                    if rng.random() < 0.5:
+                        lo = ('ninf',)
+                    else:
+                        hi = ('pinf',)
+                A.append(lo)
                 Bv.append(body)
-                Cv.append(E.C(abs(coef(rng)) + 1))
+                Cv.append(hi)
             else:
                 A.append(body)
                 Bv.append(bound)
